@@ -748,6 +748,10 @@ fn byte_level(report: &Report, tier: Tier, cases: &AtomicU64, accepted: &AtomicU
 
 pub fn run(cli: &Cli) -> ! {
     let report = Report::new(cli);
+    if cli.extra.get("part").map(|s| s.as_str()) == Some("structure-common") {
+        crate::structure::run_common(&crate::cfg_for_c09(cli.tier), &report, cli.tier);
+        report.finish(true, json!("structure-common"));
+    }
     if let Some(path) = &cli.replay {
         replay(&report, path);
     }
@@ -759,6 +763,10 @@ pub fn run(cli: &Cli) -> ! {
     let n_instr = cases.load(Ordering::Relaxed);
     eprintln!("[instr level] cases={} elapsed={:.1}s", n_instr, report.elapsed_s());
     let s2 = limit_level(&report, &cases, &accepted, &runs);
+    // accesses at and beyond the bounds of memories of every admitted shape (incl. the empty one),
+    // and calls with up to 7 arguments: judged by the reference machine (an access outside the
+    // memory must trap, not read or write)
+    crate::structure::run_common_guarded(&report, cli.tier);
     let n_limits = cases.load(Ordering::Relaxed) - n_instr;
     eprintln!("[limit level] cases={} elapsed={:.1}s", n_limits, report.elapsed_s());
     let s3 = byte_level(&report, cli.tier, &cases, &accepted, &runs);
